@@ -52,7 +52,7 @@ def run(ctx, chk):
     chk.assumptions += ["distinct abstract addresses do not alias (source/destination overlap is not decided)"]
     P = ctx.program
     G = ctx.gram("interpreter")
-    chk.rule("C07.R1", "source = DS:SI, destination = ES:DI (exact address forms)", floor=28)
+    chk.rule("C07.R1", "source = DS:SI, destination = ES:DI (exact address forms)", floor=25)
     chk.rule("C07.R2", "SI/DI step by +/- element size mod 2^16; unused pointers unchanged", floor=20)
     chk.rule("C07.R3", "word elements occupy cells p and p+1 in both directions", floor=10)
     chk.rule("C07.R4", "effects: who may write memory / AL,AX / flags", floor=20)
